@@ -42,7 +42,7 @@ def thread_paths(ses, funcs, kind, logger, outcl):
     for o in ex.run(outcl, [env]):
         if o.kind != "return":
             continue
-        evs = [t[1] for t in o.trace if t[0] == "atomic" and t[1][1] == "EXIT_CODE"]
+        evs = [t[1] for t in o.trace if t[0] == "atomic"]
         logged = z3.Or([l[1] == z3.BitVecVal(1, 64) for l in o.trace if l[0] == "log"] + [z3.BoolVal(False)])
         res.append({"events": evs, "pc": list(o.pc), "logged": logged})
     # de-duplicate paths with identical event shapes and merge their conditions (keeps the encoding small)
@@ -58,13 +58,13 @@ def logger_paths(ses, funcs, logger):
     for o in ex.run(logger, args):
         if o.kind != "return":
             continue
-        evs = [t[1] for t in o.trace if t[0] == "atomic" and t[1][1] == "EXIT_CODE"]
+        evs = [t[1] for t in o.trace if t[0] == "atomic"]
         res.append({"events": evs, "pc": list(o.pc), "logged": z3.BoolVal(True)})
     return res
 
 
 def shape(p):
-    return tuple((e[0], e[2] if e[0] == "rmw" else None) for e in p["events"])
+    return tuple((e[0], e[1], e[2] if e[0] == "rmw" else None) for e in p["events"])
 
 
 def rename(terms, suffix):
@@ -87,6 +87,7 @@ def encode(out_paths, log_paths, k, j):
     events = []          # dict(thread, act, kind, t, rd, wr)
     kinds = [z3.Int(f"kind_{i}") for i in range(k)]
     sev_terms = []
+    io_err = []
     info = []
     for i in range(k):
         cons.append(z3.And(kinds[i] >= 0, kinds[i] <= 3))
@@ -99,9 +100,11 @@ def encode(out_paths, log_paths, k, j):
                 rn = rename(terms, f"@{i}")
                 cons.append(z3.Implies(sel, z3.And([kinds[i] == ki] + [rn(c) for c in p["pc"]])))
                 sev_terms.append(z3.If(z3.And(sel, rn(p["logged"])), 2, z3.If(sel, SEV[kind], 0)))
+                if kind != "Err":
+                    io_err.append((sel, rn(p["logged"])))
                 for ei, e in enumerate(p["events"]):
                     t = z3.Int(f"t_O{i}_{kind}_{pi}_{ei}")
-                    ev = {"thread": "O", "path": (kind, pi), "ei": ei, "act": sel, "t": t, "name": f"O{i}.{kind}.p{pi}.{e[0]}{ei}", "item": i}
+                    ev = {"thread": "O", "path": (kind, pi), "ei": ei, "act": sel, "t": t, "name": f"O{i}.{kind}.p{pi}.{e[0]}{ei}", "item": i, "cell": e[1]}
                     if e[0] == "load":
                         ev.update(kind="load", rd=rn(e[2]))
                     elif e[0] == "store":
@@ -123,7 +126,7 @@ def encode(out_paths, log_paths, k, j):
             cons.append(z3.Implies(sel, z3.And([act] + [rn(c) for c in p["pc"]])))
             for ei, e in enumerate(p["events"]):
                 t = z3.Int(f"t_L{q}_{pi}_{ei}")
-                ev = {"thread": "M", "path": pi, "ei": ei, "act": sel, "t": t, "name": f"M{q}.p{pi}.{e[0]}{ei}", "item": q}
+                ev = {"thread": "M", "path": pi, "ei": ei, "act": sel, "t": t, "name": f"M{q}.p{pi}.{e[0]}{ei}", "item": q, "cell": e[1]}
                 if e[0] == "load":
                     ev.update(kind="load", rd=rn(e[2]))
                 elif e[0] == "store":
@@ -149,10 +152,10 @@ def encode(out_paths, log_paths, k, j):
     init = z3.BitVecVal(0, 32)
     writes = [e for e in events if e["kind"] in ("store", "rmw")]
 
-    def value_before(tr, exclude=None):
-        """value of the cell just before time tr"""
+    def value_before(tr, exclude=None, cell="EXIT_CODE"):
+        """value of the cell just before time tr (single-location coherence per cell)"""
         v = init
-        cands = [w for w in writes if w is not exclude]
+        cands = [w for w in writes if w is not exclude and w["cell"] == cell]
         res = init
         # nested ite: for each candidate w: it is the last write before tr
         for w in cands:
@@ -161,12 +164,13 @@ def encode(out_paths, log_paths, k, j):
         return res
     for e in events:
         if e["kind"] in ("load", "rmw"):
-            cons.append(z3.Implies(e["act"], e["rd"] == value_before(e["t"], exclude=e)))
+            cons.append(z3.Implies(e["act"], e["rd"] == value_before(e["t"], exclude=e, cell=e["cell"])))
     final = value_before(z3.IntVal(10 ** 6))
     expected = z3.IntVal(0)
     for s_ in sev_terms:
         expected = z3.If(s_ > expected, s_, expected)
-    return cons, final, expected, events, kinds, nlogs
+    no_io_errors = z3.And([z3.Not(z3.And(sel_, lg_)) for sel_, lg_ in io_err])
+    return cons, final, expected, events, kinds, nlogs, no_io_errors
 
 
 def schedule_from_model(m, events, kinds, nlogs):
@@ -174,7 +178,8 @@ def schedule_from_model(m, events, kinds, nlogs):
     act.sort(key=lambda e: m.eval(e["t"], model_completion=True).as_long())
     return {"kinds": [KINDS[m.eval(k_, model_completion=True).as_long()] for k_ in kinds],
             "walker_errors": m.eval(nlogs, model_completion=True).as_long(),
-            "order": [(e["thread"], e["name"]) for e in act]}
+            "order": [(e["thread"], e["name"]) for e in act if e["cell"] == "EXIT_CODE"],
+            "all_events": [(e["thread"], e["name"], e["cell"]) for e in act]}
 
 
 def replay_schedule(sched):
@@ -220,19 +225,32 @@ def run(ses, rep):
             red.setdefault((shape(p), str(z3.simplify(p["logged"]))), p)
         out_paths[k_] = list(red.values()) if all(len(p["events"]) == 0 for p in out_paths[k_]) else out_paths[k_]
     flagged = None
+    unreplayable = None
     for k in range(1, K + 1):
         for j in range(0, J + 1):
-            cons, final, expected, events, kinds, nlogs = encode(out_paths, log_paths, k, j)
+            cons, final, expected, events, kinds, nlogs, no_io = encode(out_paths, log_paths, k, j)
             oid = f"schedules/k={k}/j={j}/final-status=max-severity"
-            r, m = ses.obligation(oid, cons, final != z3.Int2BV(expected, 32), f"{len(events)} atomic events, all interleavings", timeout_s=120)
-            if r == "sat":
+            neg = final != z3.Int2BV(expected, 32)
+            # first the schedules that can be replayed (stdout writes succeed), then everything
+            r1, m1 = ses.check(cons + [no_io, neg], 120)
+            if r1 == "sat":
+                sched = schedule_from_model(m1, events, kinds, nlogs)
+                sched["final"] = str(m1.eval(final, model_completion=True))
+                sched["expected"] = str(m1.eval(expected, model_completion=True))
+                flagged = (oid, sched)
+                break
+            r, m = ses.obligation(oid, cons, neg, f"{len(events)} atomic events, all interleavings", timeout_s=120)
+            if r == "sat" and unreplayable is None:
                 sched = schedule_from_model(m, events, kinds, nlogs)
                 sched["final"] = str(m.eval(final, model_completion=True))
                 sched["expected"] = str(m.eval(expected, model_completion=True))
-                flagged = (oid, sched)
-                break
+                unreplayable = (oid, sched)
         if flagged:
             break
+    if flagged is None and unreplayable is not None:
+        oid, sched = unreplayable
+        rep.add(oid, "inconclusive", f"the status is wrong only on a schedule that needs a failing stdout write inside the output thread "
+                f"(not replayable): {sched}")
     rep.samples.append({"thread_programs": rep.extra["thread_programs"]})
     if flagged:
         oid, sched = flagged
